@@ -852,6 +852,33 @@ def translator_cross_check(report, status):
     report.translator_checks += 1
     if sorted(gen["registered"]) != sorted(A.confidence_methods_avail):
         status.problem("translator", f"registered methods {gen['registered']} differ from the live registry {sorted(A.confidence_methods_avail)}")
+    # the indicator rule as READ (gen_confidence.eval_rule on the extracted record, the thing Properties/C12Names.lean evaluates)
+    # against the indicator statements of `cost_volume_confidence_run` themselves, executed by CPython on step names with 0-4 dots
+    import ast as _ast
+    import random as _random
+
+    from translator import common as _common
+
+    report.translator_checks += 1
+    try:
+        fn = _common.find_method(_common.find_class(_common.parse(gen_confidence.MACHINE), "PandoraMachine"), "cost_volume_confidence_run")
+        stmts = [n for n in fn.body if isinstance(n, (_ast.Assign, _ast.If))
+                 and any(gen_confidence.is_indicator_target(t) for a in _ast.walk(n) if isinstance(a, _ast.Assign) for t in a.targets)]
+        code = compile(_ast.fix_missing_locations(_ast.Module(body=stmts, type_ignores=[])), "<indicator statements>", "exec")
+        rng = _random.Random(12)
+        names = list(gen_confidence.GOLDEN_STEPS)
+        for _ in range(200):
+            names.append(".".join("".join(rng.choice("ab_1") for _ in range(rng.randint(0, 3))) for _ in range(rng.randint(1, 5))))
+        for step in names:
+            env = {"cfg": {"pipeline": {step: {}}}, "input_step": step}
+            exec(code, env)  # pylint: disable=exec-used
+            live = env["cfg"]["pipeline"][step]["indicator"]
+            read = gen_confidence.eval_rule(gen["rule"], step)
+            if live != read:
+                status.problem("translator", f"indicator rule read as {gen['rule']} gives {read!r} on step {step!r}, the source statements give {live!r}")
+                break
+    except Exception as exc:  # pylint: disable=broad-except
+        status.problem("translator", f"indicator statements of cost_volume_confidence_run could not be executed: {type(exc).__name__}: {exc}")
 
 
 def kernel_cross_check(ctx, report, status):
